@@ -507,3 +507,92 @@ pub async fn run_local_idle() {
     let _ = peer.drain_for(1000).await;
     mon.borrow_mut().sync();
 }
+
+// ---------------------------------------------------------------------------------------
+// channel-max on the listener side: sessions are begun by the peer, the listener only answers.
+// Its answering begin goes out on a channel of its own choosing, which is bound by the smaller
+// of the two channel-max values like any other. A scripted peer begins sessions up to the
+// agreed limit and then goes on (on channel numbers it is not entitled to).
+
+pub async fn run_channel_max_listener() {
+    let mut lcfg = EndpointCfg::default_cfg();
+    lcfg.channel_max = pick(&[0u16, 1, 2, 7, 255, 65535]);
+    let peer_max = pick(&[0u16, 1, 2, 3, 7]);
+    let agreed = lcfg.channel_max.min(peer_max) as usize;
+    let extra = 1 + choice(3) as usize;
+    let (nab, nba, nd) = world::draw_net(true);
+    sim::set_config(format!("variant=channel-max-listener local={} remote={} agreed={} begins={} {}", lcfg.channel_max, peer_max, agreed, agreed + 1 + extra, nd));
+    sim::mark_nontrivial();
+    let mut models = Models::none();
+    models.sess = true;
+    let pvl = match peer::peer_vs_listener(&lcfg, peer::open("peer", Some(65536), Some(peer_max), None), nab, nba, models).await {
+        Some(x) => x,
+        None => return,
+    };
+    let peer::ListenerVsPeer { mut listener, mut peer, net, mon, .. } = pvl;
+    sim::spawn(
+        "listener-sessions",
+        sim::in_group(2, async move {
+            let acc = SessionAcceptor::new();
+            let mut held = Vec::new();
+            while let Ok(s) = acc.accept(&mut listener).await {
+                held.push(s);
+            }
+            let _ = listener.on_close().await;
+            drop(held);
+        }),
+    );
+    // the peer's channels: 0..=agreed are its to use, the rest are not
+    let mut answered = 0usize;
+    let mut closed = false;
+    for ch in 0..(agreed + 1 + extra) {
+        if ch > agreed {
+            sim::fault("begin-beyond-channel-max-from-peer");
+        }
+        peer.send(ch as u16, &peer::begin(None, 0, 100, 100)).await;
+        // wait for the answer (a begin), or for the listener to give up on the connection
+        let mut got = false;
+        for f in peer.drain_for(pick(&[0u64, 5, 200])).await {
+            if f.code == wire::BEGIN {
+                got = true;
+            }
+            if f.code == wire::CLOSE {
+                closed = true;
+            }
+        }
+        if got {
+            answered += 1;
+        }
+        if closed || peer.eof {
+            break;
+        }
+    }
+    let _ = peer::settle(&mut peer, &net, |_| {}).await;
+    {
+        let mut m = mon.borrow_mut();
+        m.sync();
+        for s in &m.ends[1].sessions {
+            if s.channel as usize > agreed {
+                sim::violation(
+                    "begin-above-channel-max",
+                    format!("the listener wrote a begin on channel {} above the agreed channel-max {} (own {}, peer's {})", s.channel, agreed, lcfg.channel_max, peer_max),
+                );
+                return;
+            }
+        }
+        if m.ends[1].sessions.len() > agreed + 1 {
+            sim::violation("session-beyond-channel-max", format!("the listener answered {} begins with an agreed channel-max of {}", m.ends[1].sessions.len(), agreed));
+            return;
+        }
+        if m.ends[1].sessions.len() < (agreed + 1).min(answered.max(agreed + 1)) && !closed && m.ends[1].close.is_none() {
+            sim::violation(
+                "begin-refused-below-channel-max",
+                format!("the listener answered only {} of the {} begins that the agreed channel-max {} allows", m.ends[1].sessions.len(), agreed + 1, agreed),
+            );
+            return;
+        }
+        sim::probe("listener-channel-max-checked");
+    }
+    peer.send(0, &peer::close(None)).await;
+    let _ = peer.drain_for(2000).await;
+}
